@@ -246,6 +246,8 @@ def run(tier, config):
             sizes = [b.render_operand(t["args"][1], 6, names=False) for bi, t, k in Q.calls(ur) if k.startswith("vec::from_elem")]
             rep.add("%s|buffer-size" % Q.disp(ur), "C12:D5", bool(sizes) and all("unwrap_or(arg2" in x for x in sizes),
                     "receive buffer length = %s" % sizes, ur["span"])
+    from .. import tracespec as TS
+    TS.compare(rep, c, "C12", "C12:settings-table")
     if config == "baseline":
         rep.floor("Socket impls", len(impls), 2)
         rep.floor("raw socket constructor sites", n_raw, 3)
